@@ -24,8 +24,10 @@ int vs_join(pthread_t, void **);
 #define pthread_join vs_join
 #endif
 /* harness API */
+void vs_config(int mode, int post_unlock_yield, int npreempt, long horizon, unsigned long seed);
 void vs_begin(unsigned long seed, int spurious_pct);   /* registers calling thread as thread 0 */
 int  vs_end(void);                                       /* returns number of scheduling steps */
 extern int vs_deadlock;                                  /* set when no thread is enabled */
 extern int vs_max_threads_seen;
+extern void (*vs_on_deadlock)(void);                    /* called before the process exits with status 3 */
 #endif
